@@ -178,6 +178,7 @@ JANET_CORE_FN(cfun_string_slice,
               "from the end of the string. Note that if `start` is negative it is "
               "exclusive, and if `end` is negative it is inclusive, to allow a full "
               "negative slice range.") {
+    janet_arity(argc, 1, 3);
     JanetByteView view = janet_getbytes(argv, 0);
     JanetRange range = janet_getslice(argc, argv);
     return janet_stringv(view.bytes + range.start, range.end - range.start);
@@ -186,6 +187,7 @@ JANET_CORE_FN(cfun_string_slice,
 JANET_CORE_FN(cfun_symbol_slice,
               "(symbol/slice bytes &opt start end)",
               "Same as string/slice, but returns a symbol.") {
+    janet_arity(argc, 1, 3);
     JanetByteView view = janet_getbytes(argv, 0);
     JanetRange range = janet_getslice(argc, argv);
     return janet_symbolv(view.bytes + range.start, range.end - range.start);
@@ -194,6 +196,7 @@ JANET_CORE_FN(cfun_symbol_slice,
 JANET_CORE_FN(cfun_keyword_slice,
               "(keyword/slice bytes &opt start end)",
               "Same as string/slice, but returns a keyword.") {
+    janet_arity(argc, 1, 3);
     JanetByteView view = janet_getbytes(argv, 0);
     JanetRange range = janet_getslice(argc, argv);
     return janet_keywordv(view.bytes + range.start, range.end - range.start);
